@@ -256,13 +256,16 @@ def ir_monitor(l, impl_rows):
         return ["%d vtable rows for %d methods" % (len(rows), len(methods))]
     for k, (m, r) in enumerate(zip(methods, rows)):
         try:
-            fails.extend(_ir_monitor_row(k, m, r))
+            fails.extend(_ir_monitor_row(k, m, r, hdr))
         except (ValueError, IndexError):
             fails.append("method %d: expansion not recognised" % k)
     return fails[:4]
 
 
-def _ir_monitor_row(k, m, r):
+RESULT_RETS = (6, 7, 11, 12)
+
+
+def _ir_monitor_row(k, m, r, hdr=None):
     fails = []
     if True:
         if len(r) < 8:
@@ -276,6 +279,15 @@ def _ir_monitor_row(k, m, r):
         i = 5 + 2 * nc
         cret = r[i:i + 2]; i += 2
         if 99 in ctys[0::2] or cret[0] == 99: fails.append("vtable entry %d has a parameter/return type that is not one of the C-representable forms" % k)
+        # which methods return an integer code is decided by the attributes: #[int_result] on the method, or on the trait unless the method opts out
+        if hdr is not None and m[2] in RESULT_RETS and cret[0] != 99:
+            mode = m[1] & 3
+            want_int = mode == 1 or (len(hdr) > 1 and hdr[1] == 1 and mode != 2)
+            uses_int = cret[0] != 12
+            if uses_int != want_int:
+                fails.append("m%d %s the integer result convention although %s" % (
+                    k, "uses" if uses_int else "does not use",
+                    "neither it nor the trait carries #[int_result]" if uses_int else "#[int_result] applies to it"))
         default_ok = r[i]; i += 1
         if default_ok != 1: fails.append("Default vtable does not store cglue_wrapped_m%d in slot m%d" % (k, k))
         w_access, w_target, w_ctx, w_n = r[i:i + 4]; i += 4
